@@ -9,7 +9,14 @@ Property theorems only. `Dawn.LineWriter.write`/`flush` model `(*lineWriter).Wri
 -/
 namespace Dawn.LineWriter
 
-/-- C18, output delivery: whatever the chunking of the writes, a fresh writer followed by `Flush` delivers
+/-- C18, output delivery. The theorem is about ONE writer receiving ONE sequence of `Write` calls (the line
+writer has no lock). That hypothesis is established by the code, not assumed silently: a target body's stdout
+and stderr are the identical writer and every builtin that runs a process passes the two on unwrapped, so `os/exec`
+and the shell interpreter copy from a single pipe in a single goroutine — tie `single_writer_ok` in
+`Dawn/Ties/LineWriter.lean`, and the harness runs real processes writing to both streams (stream `ev.output`,
+judge `process-lines`, and the race detector in the thorough tier).
+
+Whatever the chunking of the writes, a fresh writer followed by `Flush` delivers
 exactly the lines of the concatenated output, in order, each once (the final partial line included), and
 ends with an empty builder. -/
 theorem C18_lines (chunks : List Bytes) :
